@@ -63,6 +63,15 @@ type c18Input struct {
 	IntervalNs int64 `json:"intervalNs"` // tick interval of the flow that owns PanicSite
 	Services   int   `json:"services"`   // recoverers per plugin
 	AuxMax     int   `json:"auxMax"`     // helper goroutines the services of one plugin own together
+	// constructor / collaborator faults and forced schedules (c18_cov_test.go)
+	CtorFault  string `json:"ctorFault,omitempty"`  // scenario "ctor-fail": what makes NewReportingPlugin fail (see c18CtorFaults)
+	CloseFault string `json:"closeFault,omitempty"` // a collaborator's close step fails: "v2-coordinator-close" | "unsubscribe"
+	Gate       string `json:"gate,omitempty"`       // forced start-up schedule through the `verif` hook (see c18Gates)
+	// family "svc": one real service behind a recoverer (wrap) or bare, built through its public constructor and driven by a script
+	Kind   string  `json:"kind,omitempty"`   // ticker | resultStore | metadataStore | coordinator | runner | v2observer
+	Wrap   bool    `json:"wrap,omitempty"`   // behind service.NewRecoverer
+	Getter string  `json:"getter,omitempty"` // ticker: ok | nil | err (every odd call fails)
+	Ops    []c18Op `json:"ops,omitempty"`
 }
 
 type c18RunnerCfg struct {
@@ -103,11 +112,26 @@ type c18Impl struct {
 	RoundsBlocked   int            `json:"roundsBlocked"`        // … that had not returned 5 virtual seconds later (the open plugin hangs)
 	RoundErrs       int            `json:"roundErrs"`            // … that returned an error
 	LeakedSoon      map[string]int `json:"leakedSoon"`           // goroutines of the repository by class ONE virtual second after Close returned
+	DrainedNs       int64          `json:"drainedNs,omitempty"`  // virtual ns spent waiting for a backlog of context-ignoring pipeline calls to drain before the leak measurement
 	HeldBackNs      int64          `json:"heldBackNs"`           // held call: virtual ns from Close's return to the call's return (negative: before; -1<<62: never)
 	Progress        int            `json:"progress"`             // check-pipeline calls of the instance under test that completed before its Close
 	Trace           []c18Ev        `json:"trace,omitempty"`      // hook events of every recoverer, in log order (c18_trace_test.go)
 	TraceKinds      []string       `json:"traceKinds,omitempty"` // service kind per recoverer
 	Note            string         `json:"note,omitempty"`
+	// scenario "ctor-fail"
+	CtorErr   bool           `json:"ctorErr"`             // the constructor returned an error
+	CtorNil   bool           `json:"ctorNil"`             // … and no instance
+	CtorLeft  map[string]int `json:"ctorLeft,omitempty"`  // goroutines of the repository by class 35 virtual seconds after the failed call
+	CtorCalls int            `json:"ctorCalls,omitempty"` // provider calls in the last 10 of those seconds
+	CtorSubs  int            `json:"ctorSubs,omitempty"`  // block subscriptions registered then
+	// family "svc"
+	OpRes     []string         `json:"opRes,omitempty"`     // per op: what it returned / "pending" (see c18SvcCase)
+	OpAtNs    []int64          `json:"opAtNs,omitempty"`    // per op: virtual ns since the start of the case
+	OpAlive   []map[string]int `json:"opAlive,omitempty"`   // per op: goroutines of the repository by class once the op has quiesced
+	StartEnd  []string         `json:"startEnd,omitempty"`  // per start op: what that Start call had returned when the case ended ("pending" = never)
+	Process   int              `json:"process,omitempty"`   // ticker: observer.Process calls
+	GoodTicks int              `json:"goodTicks,omitempty"` // ticker: getter calls that returned a tick
+	AllTicks  int              `json:"allTicks,omitempty"`  // ticker: ticks seen by the getter (nil getter: virtual seconds the loop ran)
 }
 
 // c18Ev is one hook event of a recoverer
@@ -123,6 +147,12 @@ type c18Ev struct {
 // c18TraceBegin is set by c18_trace_test.go (which needs the `verif` hooks of pkg/v3/service in /repo); without it
 // cases carry no trace and the driver tags them "untraced".  It returns a snapshot function of the log so far.
 var c18TraceBegin func() func() ([]c18Ev, []string)
+
+// c18GateCtl (c18_trace_test.go) arms (true) or opens (false) a gate at a hook point of the tracer installed by the last
+// c18TraceBegin: a goroutine that reaches an armed point is held there, after its event was logged, until the gate opens.
+var c18GateCtl func(point string, arm bool)
+
+var c18FreezeTrace = func() {}
 
 // helper goroutines owned by services: coordinator 2 cache GCs, runner 1 cache GC + WorkerGroup.run (runProcessing) + runQueuing
 const c18AuxMax = 5
@@ -150,6 +180,17 @@ func c18Fill(in c18Input) c18Input {
 	in.IntervalNs = c18Interval(in.PanicSite)
 	in.Services = c18Services
 	in.AuxMax = c18AuxMax
+	if in.Family == "svc" {
+		in.Services, in.AuxMax, in.Work = 0, 5, 0
+		if in.Wrap {
+			in.Services = 1
+		}
+		in.Scenario = "script"
+		return in
+	}
+	if in.Gate != "" {
+		in.Scenario, in.CloseAtNs, in.Yields, in.Spin, in.Procs, in.Family = "close", 0, 0, 0, 1, ""
+	}
 	if in.Family == "v2" {
 		in.Services = 2 // report coordinator, polling observer
 		in.AuxMax = 2   // the coordinator's two cache cleaners
@@ -180,6 +221,14 @@ func c18Fill(in c18Input) c18Input {
 	if in.PanicSite == c18SitePost {
 		in.Ineligible = true
 	}
+	// (everything that switches the foreground rounds on comes BEFORE the overload rule below, which counts their jobs — and
+	// c18Fill must be idempotent: a replay fills the recorded, already filled input again)
+	if strings.HasPrefix(in.PanicSite, "typeGetter@") {
+		in.Rounds = true // the proposal queue / metadata store / coordinator only consult the getter when they hold proposals
+		if in.PanicSite == c18SiteTGCoord {
+			in.RepeatWork = true // … the coordinator only for work it has seen a report and a transmit event for
+		}
+	}
 	if !in.HonorCtx && in.LatencyNs > 0 {
 		// a pipeline that ignores cancellation must stay below the job arrival rate (one batch of <= 10 payloads per job, one
 		// tick per second), or the backlog it builds outlives any Close: that is overload, not a Close defect
@@ -193,12 +242,6 @@ func c18Fill(in c18Input) c18Input {
 		}
 		if jobs*in.LatencyNs*4 > 3*workers*int64(time.Second) {
 			in.HonorCtx = true
-		}
-	}
-	if strings.HasPrefix(in.PanicSite, "typeGetter@") {
-		in.Rounds = true // the proposal queue / metadata store / coordinator only consult the getter when they hold proposals
-		if in.PanicSite == c18SiteTGCoord {
-			in.RepeatWork = true // … the coordinator only for work it has seen a report and a transmit event for
 		}
 	}
 	if in.Family == "v2" {
@@ -226,6 +269,9 @@ func c18Case(t *testing.T, in c18Input, ck func(c18Impl)) {
 	impl := c18Impl{Survived: true, Phase: "start", CloseErrs: map[string]int{}, CallsAfterClose: map[string]int{}, Leaked: map[string]int{},
 		LeakedDetail: map[string]int{}, SecondCloseErrs: map[string]int{}, LeakedAfter2nd: map[string]int{}, PanicAtNs: -1}
 	impl.CloseCalled = in.Scenario == "close" // the next check-point comes only after Close has returned
+	if in.Family == "svc" || in.Scenario == "ctor-fail" {
+		impl.CloseCalled = false
+	}
 	ck(impl)
 	for i := 0; i < in.PreYields; i++ {
 		runtime.Gosched()
@@ -235,9 +281,35 @@ func c18Case(t *testing.T, in c18Input, ck func(c18Impl)) {
 		snap = c18TraceBegin()
 	}
 	ck0 := ck
+	var frozenEv []c18Ev
+	var frozenKinds []string
+	frozen := false
 	ck = func(impl c18Impl) {
-		impl.Trace, impl.TraceKinds = snap()
+		if frozen {
+			impl.Trace, impl.TraceKinds = frozenEv, frozenKinds
+		} else {
+			impl.Trace, impl.TraceKinds = snap()
+		}
 		ck0(impl)
+	}
+	// the observation is over; what the harness does afterwards to end the bubble (closing a wrapped service directly) is not
+	// part of the log
+	c18FreezeTrace = func() { frozenEv, frozenKinds = snap(); frozen = true }
+	gated := in.Gate != "" && c18GateCtl != nil
+	if gated {
+		// forced schedule: every serviceStart is held right after `running.Store(true)`, before its select
+		c18GateCtl("ss.stored", true)
+		if in.Gate == "full-empty" {
+			c18GateCtl("close.full", true) // … and Close right after its first send attempt that found the channel full
+		}
+	}
+	if in.Family == "svc" {
+		c18SvcCase(t, in, impl, ck)
+		return
+	}
+	if in.Scenario == "ctor-fail" {
+		c18CtorCase(t, in, impl, ck)
+		return
 	}
 	var node *c18Sys
 	if in.Family == "v2" {
@@ -307,6 +379,9 @@ func c18Case(t *testing.T, in c18Input, ck func(c18Impl)) {
 		ck(impl)
 		time.Sleep(time.Duration(in.CloseAtNs))
 	case "close":
+		if gated {
+			synctest.Wait() // every service sits in its loop, every serviceStart in the gate
+		}
 		for i := 0; i < in.Yields; i++ {
 			runtime.Gosched()
 		}
@@ -360,7 +435,7 @@ func c18Case(t *testing.T, in c18Input, ck func(c18Impl)) {
 	impl.Progress = pr.doneCount(node.progressSite)
 	impl.ClosedAtNs = int64(time.Since(pr.t0))
 	var err error
-	if in.Scenario == "close" && in.CloseAtNs == 0 {
+	if in.Scenario == "close" && in.CloseAtNs == 0 && !gated {
 		// start-up races: Close on this goroutine, nothing in between
 		err, impl.ClosePanic = c18SafeClose(node.close)
 	} else {
@@ -371,6 +446,20 @@ func c18Case(t *testing.T, in c18Input, ck func(c18Impl)) {
 		}
 		done := make(chan closed, 1)
 		go func() { e, p := c18SafeClose(node.close); done <- closed{e, p} }()
+		if gated {
+			// Close walks through the recoverers while their serviceStart goroutines are held: each service's own result
+			// (nil) is buffered in `stopped`, Close's send attempt finds the channel full
+			synctest.Wait()
+			if in.Gate == "full-empty" {
+				// Close is held after that attempt; serviceStart is let go, takes the message, parks; then Close's drain
+				// attempt finds nothing
+				c18GateCtl("ss.stored", false)
+				synctest.Wait()
+				c18GateCtl("close.full", false)
+				synctest.Wait()
+			}
+			c18GateCtl("ss.stored", false)
+		}
 		select {
 		case c := <-done:
 			err, impl.ClosePanic = c.err, c.pan
@@ -399,6 +488,27 @@ func c18Case(t *testing.T, in c18Input, ck func(c18Impl)) {
 	impl.HeldBackNs = -1 << 62
 	if hb := pr.heldReturnedAt(); hb >= 0 {
 		impl.HeldBackNs = hb - closeBack
+	}
+	if in.LatencyNs > 0 && !in.HonorCtx {
+		// pipeline calls that ignore cancellation legitimately outlive Close by their latency, and a backlog of queued jobs by
+		// backlog x latency (they drain, one per worker and latency).  Draining is not "still running": wait — in virtual
+		// time — for as long as the number of goroutines in flight keeps FALLING.  Whatever never ends, or is replenished, stops
+		// the wait at once and is counted below exactly as before.
+		count := func() int { m, _ := c18Goroutines(); return m["inflight"] }
+		step := 10 * time.Second
+		if d := 8 * time.Duration(in.LatencyNs); d > step {
+			step = d
+		}
+		for prev, i := count(), 0; prev > 0 && i < 400; i++ {
+			time.Sleep(step)
+			synctest.Wait()
+			cur := count()
+			if cur >= prev {
+				break
+			}
+			prev = cur
+			impl.DrainedNs += int64(step)
+		}
 	}
 	time.Sleep(24*time.Second + 137*time.Millisecond)
 	c1 := pr.snapshot()
@@ -925,9 +1035,16 @@ func TestC18(t *testing.T) {
 		for _, in := range c18Edge() {
 			jobs = append(jobs, job{"edge", in})
 		}
+		for _, in := range c18CovEdge() {
+			jobs = append(jobs, job{"edge", in})
+		}
 		r := NewRng(seed())
 		for i, n := 0, tierN(600, 12000); i < n; i++ {
 			jobs = append(jobs, job{"gen", c18Gen(r)})
+		}
+		r2 := NewRng(seed() ^ 0xc18c0)
+		for i, n := 0, tierN(60, 1200); i < n; i++ {
+			jobs = append(jobs, job{"gen", c18CovGen(r2)})
 		}
 	}
 	impls := make([]c18Impl, len(jobs))
